@@ -943,9 +943,7 @@ Triggers(cfg, pre, post) ==
     \cup (IF post.ev.kind = "arrival" /\ post.now = 0 /\ post.ev.node \in DOMAIN cfg.nodes
               /\ cfg.nodes[post.ev.node].kind \in {"slot", "ps"}
           THEN {"F14"} ELSE {})
-    \cup (IF post.ev.kind = "end_service" /\ post.ev.node \in DOMAIN cfg.nodes /\ cfg.nodes[post.ev.node].kind = "sched"
-              /\ pre.nodes[post.ev.node].c = 0
-          THEN {"F7"} ELSE {})
+
 
 \* non-vacuity witnesses of one event
 Witnesses(cfg, pre, post) ==
